@@ -86,6 +86,11 @@ def gen_cases(rng, tier):
             "max_t": rng.choice([1, 2, 3]) if name.startswith("fifo-") else rng.choice([9, 27]),
             "extra": {"brackets": rng.choice([1, 1, 2, 3]), "reduction_factor": rng.choice([2, 3])},
         }
+        if name == "fifo-rea" and rng.random() < 0.5:
+            spec["extra"]["searcher_without_mode"] = True   # the searcher object is told its mode by the scheduler only
+        if name == "median":
+            spec["extra"]["running_average"] = rng.random() < 0.5
+            spec["extra"]["grace_population"] = rng.choice([1, 2, 3])
         if name == "moasha":
             spec["modes"] = [rng.choice(["min", "max"]), rng.choice(["min", "max"])]
         if name in ("moasha", "median", "hb-stopping", "hb-rush_stopping"):
